@@ -14,39 +14,27 @@ namespace BlockDiag
 namespace Problem
 open Dsl
 
-variable {K : Type} [Field K] [StarRing K] [DecidableEq K] [Thresholds K]
+variable {K : Type} [Field K] [StarRing K] [DecidableEq K] [Thresholds K] [LawfulThresholds K]
 attribute [local instance] Scalar.ofField
 variable (p : Problem K)
 
-/-- `|−x| < t ↔ |x| < t` for the threshold of the carrier -/
-def AbsLtEven (K : Type) [Thresholds K] [Neg K] : Prop := ∀ (x : K) (t : Rat), Thresholds.absLt (-x) t = Thresholds.absLt x t
-
-theorem absLtEven_rat : AbsLtEven ℚ := by
-  intro x t
-  simp only [Thresholds.absLt, neg_neg, Bool.and_comm]
-
-theorem absLtEven_grat : AbsLtEven GRat := by
-  intro x t
-  show decide ((-x).normSq < t * t) = decide (x.normSq < t * t)
-  unfold GRat.normSq; simp
-
 variable {p}
 
-theorem closeIn_symm (hev : AbsLtEven K) (a b : Nat) : p.closeIn a b = p.closeIn b a := by
+theorem closeIn_symm (a b : Nat) : p.closeIn a b = p.closeIn b a := by
   unfold closeIn equalEigs
   have h1 : (p.blk a == p.blk b) = (p.blk b == p.blk a) := by
     by_cases h : p.blk a = p.blk b
     · simp [h]
     · have h' : ¬ p.blk b = p.blk a := fun e => h e.symm
       simp [h, h']
-  have h2 : Scalar.absLt (p.energy a - p.energy b) p.atol = Scalar.absLt (p.energy b - p.energy a) p.atol := by
-    have := hev (p.energy b - p.energy a) p.atol
+  have h2 : Scalar.absGt (p.energy a - p.energy b) p.atol = Scalar.absGt (p.energy b - p.energy a) p.atol := by
+    have := LawfulThresholds.absGt_neg (p.energy b - p.energy a) p.atol
     rw [neg_sub] at this
     exact this
   rw [h1, h2]
 
-theorem sameLevel_symm (hev : AbsLtEven K) (a b : Nat) : p.sameLevel a b = p.sameLevel b a :=
-  Closure.closure_symm p.closeIn (fun a b _ _ => closeIn_symm hev a b) a b
+theorem sameLevel_symm (a b : Nat) : p.sameLevel a b = p.sameLevel b a :=
+  Closure.closure_symm p.closeIn (fun a b _ _ => closeIn_symm a b) a b
 
 theorem sameLevel_trans {a b c : Nat} (h1 : p.sameLevel a c = true) (h2 : p.sameLevel c b = true) : p.sameLevel a b = true :=
   Closure.closure_trans p.closeIn h1 h2
@@ -65,7 +53,7 @@ theorem sameLevel_of_close {a b : Nat} (ha : a < p.d) (hb : b < p.d) (hblk : p.b
     p.sameLevel a b = true :=
   Closure.closure_of_rel p.closeIn ha hb (by unfold closeIn; rw [hblk, h]; simp)
 
-/-- … and what is not kept together is at least `atol` apart -/
+/-- … and what is not kept together is more than `atol` apart -/
 theorem not_close_of_not_sameLevel {a b : Nat} (ha : a < p.d) (hb : b < p.d) (hblk : p.blk a = p.blk b) (h : p.sameLevel a b = false) :
     p.equalEigs a b = false := by
   by_contra hc
@@ -74,7 +62,7 @@ theorem not_close_of_not_sameLevel {a b : Nat} (ha : a < p.d) (hb : b < p.d) (hb
   cases h
 
 /-- **the kept pattern of a commuting block is transitive** — for every problem: no side condition on the energies -/
-theorem keptE_trans (hev : AbsLtEven K) (a b c : Nat) (hc : p.commuting (p.blk a) = true) (hab : p.keptE a b = true) (hcb : p.keptE c b = true) :
+theorem keptE_trans (a b c : Nat) (hc : p.commuting (p.blk a) = true) (hab : p.keptE a b = true) (hcb : p.keptE c b = true) :
     p.keptE a c = true := by
   unfold keptE elimIn at *
   rw [Bool.and_eq_true] at hab hcb ⊢
@@ -94,7 +82,7 @@ theorem keptE_trans (hev : AbsLtEven K) (a b c : Nat) (hc : p.commuting (p.blk a
     | none => rfl
     | tuple l =>
       simp only [hfd, Bool.not_not] at hab2 hcb2 ⊢
-      exact sameLevel_trans hab2 (by rw [sameLevel_symm hev]; exact hcb2)
+      exact sameLevel_trans hab2 (by rw [sameLevel_symm]; exact hcb2)
     | dict l =>
       simp only [hfd] at hc hsel
       rw [hsel] at hc
@@ -102,10 +90,26 @@ theorem keptE_trans (hev : AbsLtEven K) (a b c : Nat) (hc : p.commuting (p.blk a
   · have : p.selected (p.blk a) = false := by simpa using hsel
     rw [this]; rfl
 
+/-- the gap clause of `Accepted` inside a block that is fully diagonalised by its list form: what is not kept there is divided by (`|ΔE| > atol`) — the masks
+and the solver's denominators cannot disagree (before D38 they did when `|ΔE| = atol` exactly) -/
+theorem gap_same_block_tuple {a b : Nat} (ha : a < p.d) (hb : b < p.d) (hblk : p.blk a = p.blk b) {l : List Nat} (hfd : p.fdEff = .tuple l)
+    (hk : p.keptE a b = false) : Scalar.absGt (p.energy a - p.energy b) p.atol = true := by
+  unfold keptE elimIn at hk
+  rw [hblk, beq_self_eq_true, Bool.true_and] at hk
+  have hel : p.elim a b = true := by
+    cases hs : p.selected (p.blk b) <;> simp [hs] at hk
+    exact hk
+  unfold elim at hel
+  simp only [hfd] at hel
+  have hsl : p.sameLevel a b = false := by simpa using hel
+  have := not_close_of_not_sameLevel ha hb hblk hsl
+  unfold equalEigs at this
+  simpa using this
+
 /-- the transitivity clause of `Accepted` is not a condition: it holds of every problem -/
-theorem comm_trans_holds (hev : AbsLtEven K) : ∀ a b c : Fin p.d, p.commuting (p.blk a.val) = true → p.keptE a.val b.val = true →
+theorem comm_trans_holds : ∀ a b c : Fin p.d, p.commuting (p.blk a.val) = true → p.keptE a.val b.val = true →
     p.keptE c.val b.val = true → p.keptE a.val c.val = true :=
-  fun a b c hc hab hcb => keptE_trans hev a.val b.val c.val hc hab hcb
+  fun a b c hc hab hcb => keptE_trans a.val b.val c.val hc hab hcb
 
 variable (p) in
 /-- `Accepted` without its transitivity clause -/
@@ -122,7 +126,7 @@ structure AcceptedCore : Prop where
   no_shared : ∀ a b : Fin p.d, p.blk a.val ≠ p.blk b.val →
     Scalar.isClose (p.energy a.val) (p.energy b.val) = false
 
-theorem AcceptedCore.accepted (hev : AbsLtEven K) (h : p.AcceptedCore) : p.Accepted where
+theorem AcceptedCore.accepted (h : p.AcceptedCore) : p.Accepted where
   wf := h.wf
   blocks_lt := h.blocks_lt
   atol_nonneg := h.atol_nonneg
@@ -131,7 +135,7 @@ theorem AcceptedCore.accepted (hev : AbsLtEven K) (h : p.AcceptedCore) : p.Accep
   elim_symm := h.elim_symm
   diag_kept := h.diag_kept
   gap := h.gap
-  comm_trans := comm_trans_holds hev
+  comm_trans := comm_trans_holds
   no_shared := h.no_shared
 
 /-- a single block, fully diagonalised by default, whose lowest three levels are equal within `atol = 10` only through their neighbours
